@@ -177,6 +177,8 @@ def judge(ctx, events, viols, scens, prefixes, tlc_out):
             sig["where"] = sorted({norm_where(h["where"]) for h in e.get("hangs", [])})
         elif e["ev"] == "Step":
             sig["action"] = e["a"]
+        elif e["ev"] == "Held":
+            sig["name"] = e["name"]
         elif e["ev"] == "Crash":
             sig["panic"] = (e.get("msg") or "")[:60]
         elif e["ev"] == "UDPStep":
